@@ -84,7 +84,12 @@ func (gw *parallelGateway) NextAction(ctx context.Context, flow Flow) chan IActi
 	})
 
 	response := make(chan IAction, 1)
-	gw.mch <- nextActionMessage{response: response, flow: flow}
+	select {
+	case gw.mch <- nextActionMessage{response: response, flow: flow}:
+	case <-ctx.Done():
+		// the node's loop may have left already; the token's own select
+		// observes the cancellation
+	}
 	return response
 }
 
